@@ -496,11 +496,13 @@ func lineSlug(loc string, full string) string {
 // running one connection through the real Run()
 
 type connRun struct {
-	n    *nodeEnv
-	c    *network.OneConnection
-	pc   *pconn
-	done chan string
-	res  *Result
+	noDrain      bool // scripted: the node's main thread is busy, queues are not read
+	backpressure int
+	n            *nodeEnv
+	c            *network.OneConnection
+	pc           *pconn
+	done         chan string
+	res          *Result
 }
 
 const banner = "THIS SHOULD NOT HAPPEN"
@@ -572,11 +574,43 @@ func (r *connRun) wait() (state, info string) {
 			if same >= 3 {
 				return "deadlock", g.text
 			}
+		} else if g.state == "chan send" {
+			// Run's goroutine waits for room in a bounded queue. The harness is the
+			// only consumer of the handlers' queues and it is not reading while it
+			// waits here: this does not end by itself.
+			if g.text == last {
+				same++
+			} else {
+				last, same = g.text, 0
+			}
+			if same >= 3 {
+				return "qfull", g.text
+			}
 		} else {
 			last, same = "", 0
 		}
 		if time.Since(t0) > watchdog {
 			return "hang", g.text
+		}
+	}
+}
+
+// waitQ is wait() plus the rule for full queues: a handler that waits for room in a
+// queue while holding NO mutex is back-pressure by design (the main thread will make
+// room; the harness does and goes on); one that waits while holding a mutex the rest
+// of the node needs is reported.
+func (r *connRun) waitQ() (state, info string, held []string) {
+	for {
+		state, info = r.wait()
+		if state != "qfull" {
+			return
+		}
+		if held = r.heldLocks(); len(held) > 0 {
+			return
+		}
+		r.backpressure++
+		if v := r.drainQueues(); v != nil {
+			return "drainviol", v.Key + "\n" + v.What, nil
 		}
 	}
 }
@@ -861,9 +895,18 @@ func runNet(n *nodeEnv, cs *Case) (res Result) {
 		}
 		return nil
 	}
+	var qheld []string
 	stuck := func(i int, state, info string) *Violation {
 		fn, loc, h := site(info, false)
 		cmd := r.evName(cs, i)
+		if state == "qfull" {
+			return &Violation{Key: "net/" + h + "/blocked-on-full-queue@" + fn + heldSuffix(qheld), Stack: info,
+				What: fmt.Sprintf("the handler for %q waits for room in a full queue at %s (%s) while holding %s: everything that needs these mutexes - other peers' handlers and the main thread that is supposed to empty the queue - stops behind it", cmd, fn, loc, strings.Join(qheld, ", "))}
+		}
+		if state == "drainviol" {
+			kv := strings.SplitN(info, "\n", 2)
+			return &Violation{Key: kv[0], What: kv[len(kv)-1]}
+		}
 		if state == "deadlock" {
 			return &Violation{Key: "net/" + h + "/deadlock@" + fn, Stack: info,
 				What: fmt.Sprintf("processing %q blocks forever on a mutex at %s (%s): the lock was left held earlier on this connection", cmd, fn, loc)}
@@ -905,6 +948,17 @@ func runNet(n *nodeEnv, cs *Case) (res Result) {
 			pc.feed(nil, true, false, false)
 		case "boom":
 			pc.feed(nil, false, false, true)
+		case "nodrain":
+			r.noDrain = true
+			res.Handled++
+			continue
+		case "drain":
+			r.noDrain = false
+			if v := r.after(cs, i); v != nil {
+				return fail(i, v)
+			}
+			res.Handled++
+			continue
 		case "tick":
 			c.Tick(time.Now())
 			scriptedTicks++
@@ -916,7 +970,7 @@ func runNet(n *nodeEnv, cs *Case) (res Result) {
 		default:
 			ev.HarnessError("unknown event type %q", e.T)
 		}
-		st, info = r.wait()
+		st, info, qheld = r.waitQ()
 		tr("event-" + e.T + "-" + e.Cmd + " " + st)
 		if st == "done" {
 			if v := runEnded(i, info); v != nil {
@@ -938,6 +992,12 @@ func runNet(n *nodeEnv, cs *Case) (res Result) {
 		res.Handled++
 	}
 	if !ended {
+		if r.noDrain {
+			r.noDrain = false
+			if v := r.drainQueues(); v != nil {
+				return fail(len(cs.Events), v)
+			}
+		}
 		pc.feed(nil, false, true, false)
 		st, info = r.wait()
 		if st != "done" {
@@ -964,6 +1024,9 @@ func runNet(n *nodeEnv, cs *Case) (res Result) {
 	sort.Strings(cn)
 	res.Outcome = fmt.Sprintf("ban=%s why=%s mis=%d ver=%v b2g=%d bip=%d mp=%d/%d [%s]", o.BanReason, strings.SplitN(o.WhyDisc, ":", 2)[0], o.Misbehave, o.VersionReceived, network.VerifB2GCount(), o.BlocksInProgress,
 		len(txpool.TransactionsToSend), len(txpool.TransactionsRejected), strings.Join(cn, " "))
+	if r.backpressure > 0 || common.CounterGet("TxChannelFULL") > 0 {
+		res.Outcome += fmt.Sprintf(" backpressure=%d txq-full-drops=%d", r.backpressure, common.CounterGet("TxChannelFULL"))
+	}
 	if o.Ticks > 1+scriptedTicks {
 		res.Disturbed = true
 	}
@@ -981,6 +1044,9 @@ func (r *connRun) after(cs *Case, i int) *Violation {
 	if held := r.heldLocks(); len(held) > 0 {
 		return &Violation{Key: "net/" + cmd + "/lock-held" + heldSuffix(held),
 			What: fmt.Sprintf("handler for %q returned with mutexes still locked: %s", cmd, strings.Join(held, ", "))}
+	}
+	if r.noDrain {
+		return nil
 	}
 	if v := r.drainQueues(); v != nil {
 		return v
